@@ -14,13 +14,18 @@ def mon_closure(i, op, var="x"):
 ARM_SEM = """match sem_inner(%s, vm_of(*old(self))) { Some(m2) => res is Some && vm_of(*final(self)) == m2, None => res is None }"""
 ARM_REQ = [lambda: C("pc", "1 <= old(self).pc <= 0x8000_0000_0000", note="A-PHYS: program counter below 2^47 (a program has fewer than 2^47 instructions)")]
 ARM_HINT = """proof { let m0 = vm_of(*old(self)); match sem_inner(%s, m0) { Some(m2) => { assert(self.stack@ =~= m2.stack); assert(self.heap@ =~= m2.heap); assert(self.loop_state@ =~= m2.loops); } None => {} } }"""
+STD_ARMS = ("PushI", "PushB", "LoadImm", "VRef", "SigEOk", "Hash", "Eql", "Bez", "Bnz", "Jmp", "Load", "BLength", "VLength")   # instructions the standard signature covenants (and typical hash/time locks) are made of
 def arm(variant, opexpr, closures=(), rewrites=(), covered=True, loops=(), injects=()):
     ens = [C("frame", "final(self).instrs == old(self).instrs", "C10")]
     if covered and not closures:
         injects = list(injects) + [Inject("before_tail", ARM_HINT % opexpr)]
     if covered:
-        ens.insert(0, C("sem", ARM_SEM % opexpr, "C10"))
-    return Fn(E_, "step", impl="Executor", key=E_ + "::Executor::step#arm_" + variant, home="C10", implicit_props=("C09", "C10"),
+        ens.insert(0, C("sem", ARM_SEM % opexpr, "C10", "C11", *(("C04",) if variant in STD_ARMS else ())))
+    if variant in STD_ARMS:
+        for cl in closures:
+            for c in cl.ensures:
+                c.props = tuple(c.props) + ("C04",)
+    return Fn(E_, "step", impl="Executor", key=E_ + "::Executor::step#arm_" + variant, home="C10", implicit_props=("C09", "C10", "C11") + (("C04",) if variant in STD_ARMS else ()),
               rewrites=[("ARM", variant)] + list(rewrites), closures=list(closures), loops=list(loops), injects=list(injects),
               requires=[r() for r in ARM_REQ], ensures=ens)
 def cl2(op, a="x", b="y"):
@@ -117,8 +122,8 @@ pub broadcast group group_melvm_axioms { axiom_u256_range, axiom_u256_ext, axiom
            ensures=[C("ok", "res is Some ==> old(self).stack@.len() >= 3 && exists|v: Value| call_ensures(op, (top(old(self).stack@, 0), top(old(self).stack@, 1), top(old(self).stack@, 2)), Some(v)) && #[trigger] final(self).stack@ == old(self).stack@.take(old(self).stack@.len() - 3).push(v)", "C10"),
                     C("fail", "res is None ==> old(self).stack@.len() < 3 || call_ensures(op, (top(old(self).stack@, 0), top(old(self).stack@, 1), top(old(self).stack@, 2)), None::<Value>)", "C10"),
                     C("frame", FRAME1, "C10")]),
-        Fn(E_, "update_pc_state", impl="Executor", home="C10", implicit_props=("C09", "C10"),
-           ensures=[C("bookkeeping", "vm_of(*final(self)) == sem_update(vm_of(*old(self)))", "C10"),
+        Fn(E_, "update_pc_state", impl="Executor", home="C10", implicit_props=("C09", "C10", "C11", "C04"),
+           ensures=[C("bookkeeping", "vm_of(*final(self)) == sem_update(vm_of(*old(self)))", "C10", "C11", "C04"),
                     C("frame", "final(self).instrs == old(self).instrs && final(self).stack == old(self).stack && final(self).heap == old(self).heap", "C10")],
            rewrites=[("R16",)],
            injects=[Inject(("after_let", "__wl"), "proof { if __wl is Some { assert(m_head.loops.drop_last() =~= self.loop_state@); assert(m_head.loops.last() == __wl->Some_0); } }"),
@@ -127,22 +132,22 @@ pub broadcast group group_melvm_axioms { axiom_u256_range, axiom_u256_ext, axiom
            loops=[Loop(0, decreases="self.loop_state@.len()",
                body_entry="let ghost m_head = vm_of(*self);",
                invariant_except_break=[C("same", "sem_update(vm_of(*self)) == sem_update(vm_of(*old(self))) && self.instrs == old(self).instrs && self.stack == old(self).stack && self.heap == old(self).heap", "C10")],
-               ensures=[C("done", "vm_of(*self) == sem_update(vm_of(*old(self))) && self.instrs == old(self).instrs && self.stack == old(self).stack && self.heap == old(self).heap", "C10")])]),
+               ensures=[C("done", "vm_of(*self) == sem_update(vm_of(*old(self))) && self.instrs == old(self).instrs && self.stack == old(self).stack && self.heap == old(self).heap", "C10", "C11")])]),
     ] + ARMS + [
-        Fn(E_, "step", impl="Executor", key=E_ + "::Executor::step_inner", home="C10", implicit_props=("C09", "C10"),
+        Fn(E_, "step", impl="Executor", key=E_ + "::Executor::step_inner", home="C10", implicit_props=("C09", "C10", "C11", "C04"),
            rewrites=[("DISPATCH",)],
            requires=[C("small", "old(self).instrs@.len() <= 0x7fff_ffff_ffff", note="A-PHYS: a program has fewer than 2^47 instructions")],
            ensures=[C("end", "old(self).pc >= old(self).instrs@.len() ==> res is None", "C10"),
                     C("sem", """old(self).pc < old(self).instrs@.len() && covered(old(self).instrs@[old(self).pc as int]) ==>
                           (match sem_inner(old(self).instrs@[old(self).pc as int], VM { pc: old(self).pc + 1, ..vm_of(*old(self)) }) {
-                              Some(m2) => res is Some && vm_of(*final(self)) == m2, None => res is None })""", "C10"),
+                              Some(m2) => res is Some && vm_of(*final(self)) == m2, None => res is None })""", "C10", "C11", "C04"),
                     C("frame", "final(self).instrs == old(self).instrs", "C10")]),
-        Fn(E_, "step", impl="Executor", home="C10", implicit_props=("C09", "C10"),
+        Fn(E_, "step", impl="Executor", home="C10", implicit_props=("C09", "C10", "C11", "C04"),
            rewrites=[("R5_OUTER",)],
            requires=[C("small", "old(self).instrs@.len() <= 0x7fff_ffff_ffff")],
            ensures=[C("sem", """old(self).pc < old(self).instrs@.len() && covered(old(self).instrs@[old(self).pc as int]) ==>
                           (match sem_step(old(self).instrs@[old(self).pc as int], vm_of(*old(self))) {
-                              Some(m2) => res is Some && vm_of(*final(self)) == m2, None => res is None })""", "C10"),
+                              Some(m2) => res is Some && vm_of(*final(self)) == m2, None => res is None })""", "C10", "C11", "C04"),
                     C("end", "old(self).pc >= old(self).instrs@.len() ==> res is None", "C10"),
                     C("frame", "final(self).instrs == old(self).instrs", "C10")]),
         Fn(E_, "run_to_end", impl="Executor", home="C10", implicit_props=("C09", "C10", "C04", "C11"),
